@@ -493,7 +493,7 @@ def directed_designs() -> list[dict]:
 def gen_cases(ctx: Check) -> list[Case]:
     rng = ctx.rng("gen")
     cases: list[Case] = []
-    length = ctx.pick(120, 300)
+    length = ctx.pick(100, 300)
 
     def add(design, tag, styles):
         for st in styles:
@@ -504,7 +504,7 @@ def gen_cases(ctx: Check) -> list[Case]:
 
     for d in directed_designs():
         add(d, "directed", STYLES)
-    ndes = ctx.pick(45, 400)
+    ndes = ctx.pick(32, 400)
     nmax, kmax = ctx.pick((8, 5), (10, 6))
     for _ in range(ndes):
         d = gen_design(rng, nmax, kmax)
